@@ -1,4 +1,5 @@
 import builtins
+import dataclasses
 import math
 import numbers
 from collections.abc import Callable, Iterable, Iterator, Sequence
@@ -14,6 +15,7 @@ from typing import (
 from warnings import warn
 
 import numpy as np
+import networkx as nx
 from tlz import first, partition
 
 from cubed import config
@@ -23,12 +25,13 @@ from cubed.core.array import CoreArray, check_array_specs, gensym
 from cubed.core.array import compute as compute_arrays
 from cubed.core.plan import Plan, intermediate_store
 from cubed.core.rechunk import multistage_regular_rechunking_plan
-from cubed.primitive.blockwise import ChunkKey, FunctionArgs
+from cubed.primitive.blockwise import BlockwiseSpec, ChunkKey, FunctionArgs
 from cubed.primitive.blockwise import blockwise as primitive_blockwise
 from cubed.primitive.blockwise import general_blockwise as primitive_general_blockwise
 from cubed.primitive.memory import get_buffer_copies
 from cubed.spec import spec_from_config
 from cubed.storage.store import is_storage_array, open_storage_array
+from cubed.primitive.types import CubedArrayProxy
 from cubed.storage.zarr import LazyZarrArray, lazy_zarr_array
 from cubed.types import T_RectangularChunks, T_RegularChunks, T_Shape
 from cubed.utils import (
@@ -264,42 +267,72 @@ def _store_array(
                 **blockwise_kwargs,
             )
         else:
-            # TODO: allow late assignment of array stores so we don't have to re-wire
-            # and update write proxy
-
-            # replace source target array with new target
-            source._zarray = target
-
-            # replace plan target array with new target
-            for n, d in source._plan.dag.nodes(data=True):
-                if n == source.name and "target" in d:
-                    d["target"] = target
-
-            # update predecessor ops
+            # The source array and the operation producing it may be shared with
+            # other arrays (ones derived from source, or source stored a second time),
+            # so they must not be re-targeted in place. Instead return a new array
+            # whose plan has a copy of the producing operation that writes to the
+            # new target. This doesn't add any tasks to the computation.
             from cubed.core.optimization import predecessors_unordered
 
-            predecessor_ops = [
-                pre for pre in predecessors_unordered(source._plan.dag, source.name)
-            ]
-            for n, d in source._plan.dag.nodes(data=True):
-                if n not in predecessor_ops:
-                    continue
-                if "primitive_op" in d:
-                    # replace primitive op target array with new target
-                    # and mark as not fusable with successors as store must be written
-                    op = d["primitive_op"]
-                    op.target_array = target
-                    op.fusable_with_successors = False
+            dag = source._plan.dag
+            producers = list(set(predecessors_unordered(dag, source.name)))
+            if len(producers) != 1 or "primitive_op" not in dag.nodes[producers[0]]:
+                producer = None
+            else:
+                producer = producers[0]
+                op = dag.nodes[producer]["primitive_op"]
+                config = op.pipeline.config
+                if (
+                    not isinstance(config, BlockwiseSpec)
+                    or list(config.writes_map.keys()) != [source.name]
+                ):
+                    producer = None  # e.g. an operation with multiple outputs
+            if producer is None:
+                # fall back to copying via an identity operation
+                ind = tuple(range(source.ndim))
+                return blockwise(
+                    identity,
+                    ind,
+                    source,
+                    ind,
+                    dtype=source.dtype,
+                    align_arrays=False,
+                    target_store=target,
+                    fusable_with_successors=False,
+                    **blockwise_kwargs,
+                )
 
-                    # replace write proxy target array with new target
-                    pipeline = op.pipeline
-                    writes_map = pipeline.config.writes_map
-                    if source.name in writes_map:
-                        writes_map[source.name].array = target
-                    if blockwise_kwargs.get("return_writes_stores", False):
-                        pipeline.config.return_writes_stores = True
-            # return the updated source
-            return source
+            from cubed.core.plan import gensym as op_gensym
+
+            new_name = gensym()
+            new_op_name = op_gensym()
+
+            write_proxy = config.writes_map[source.name]
+            new_config = dataclasses.replace(
+                config,
+                writes_map={new_name: CubedArrayProxy(target, write_proxy.chunks)},
+                return_writes_stores=config.return_writes_stores
+                or blockwise_kwargs.get("return_writes_stores", False),
+            )
+            new_op = dataclasses.replace(
+                op,
+                pipeline=dataclasses.replace(op.pipeline, config=new_config),
+                target_array=target,
+                # mark as not fusable with successors as store must be written
+                fusable_with_successors=False,
+            )
+
+            new_dag = nx.relabel_nodes(
+                dag, {producer: new_op_name, source.name: new_name}, copy=True
+            )
+            new_dag.nodes[new_op_name].update(
+                name=new_op_name, primitive_op=new_op, pipeline=new_op.pipeline
+            )
+            new_dag.nodes[new_name].update(name=new_name, target=target)
+
+            from cubed.array_api import Array
+
+            return Array(new_name, target, source.spec, Plan(new_dag, (new_name,)))
 
     else:
         # treat a region as an offset within the target store
